@@ -76,7 +76,8 @@ bool prepare_text(Ctx &c, const Op &op, unsigned kind, uint32_t srcsel, uint32_t
     case SK_16N: from16(single); break;
     case SK_16STR: case SK_16SV: from16(false); break;
     case SK_CBUF_L: case SK_CBUF_R:
-        A.b8 = pick_b8_text(c, srcsel);
+        // (bit 16 of the form operand: the most recently created char buffer - lets the generator pair "make a buffer like this" with "hand it over")
+        A.b8 = ((op.d >> 16) & 1) && !c.b8.empty() ? pick_b8_text(c, (uint32_t)c.b8.size() - 1) : pick_b8_text(c, srcsel);
         if (!A.b8) return false;
         A.pool_obj = A.b8; A.wf = strict_utf8(A.b8->model.data(), A.b8->model.size()); A.expect = A.b8->model;
         A.in_bytes = A.b8->model.size(); A.cls = cls_letter(A.b8->model.size(), 16);
